@@ -52,7 +52,7 @@ var c12Positions = []struct {
 }
 
 func init() {
-	floor := []string{"item.async", "item.async-union", "item.async-cte", "item.async-multidim", "item.once-multidim", "item.async-derived", "item.cte-dual-star", "item.fuse-dual-star", "item.fuse", "item.fuse-alias", "item.setvar", "item.async-derived-object", "item.async-derived-value", "item.agg-all-null", "item.option-flip", "item.async-join-operand", "item.cte-by-name", "item.fuse-async", "item.marker", "item.await-marker", "reexec.after-fault", "group.mixed-keys", "join.limit", "rich", "parjoin"}
+	floor := []string{"item.async", "item.async-union", "item.async-cte", "item.async-multidim", "item.once-multidim", "item.async-derived", "item.cte-dual-star", "item.fuse-dual-star", "item.fuse", "item.fuse-alias", "item.setvar", "item.async-derived-object", "item.async-derived-value", "item.agg-all-null", "item.option-flip", "item.mix-object", "item.async-join-operand", "item.cte-by-name", "item.fuse-async", "item.marker", "item.await-marker", "reexec.after-fault", "group.mixed-keys", "join.limit", "rich", "parjoin"}
 	for _, f := range c12Forms {
 		floor = append(floor, "form."+f.name)
 	}
@@ -227,12 +227,15 @@ func c12Matrix(c *fw.Case) {
 		d = newRichDoc(c)
 	}
 	nf, np := len(c12Forms), len(c12Positions)
-	cell := c.Idx % (nf*np + 64)
+	cell := c.Idx % (nf*np + 66)
 	if cell >= nf*np {
 		// special select items
 		var sql string
 		var feat string
-		switch (cell - nf*np) % 32 {
+		switch (cell - nf*np) % 33 {
+		case 32:
+			// a top-level function over an object whose flattened names collide
+			sql, feat = gen.Pick(c.R, []string{"SELECT rid, `mix=>cfg` AS m FROM t1", "SELECT `mix=>cfg` AS m, `mix=>cfg.a` AS n FROM t1 WHERE n1 >= 0", "SELECT DISTINCT `mix=>cfg` AS m FROM t1"}), "item.mix-object"
 		case 29:
 			// aggregates over a column that is NULL or missing in every row
 			sql, feat = gen.Pick(c.R, []string{"SELECT AVG(nokey) AS a, SUM(nokey) AS s, MIN(nokey) AS m, COUNT(*) AS n FROM t1", "SELECT s1, AVG(nokey) AS a, MAX(nokey) AS m FROM t1 GROUP BY s1",
